@@ -278,6 +278,8 @@ enum Ct {
     NoParam { media: String },
     /// `type/subtype; charset=label` or `type/subtype;charset=label`
     Charset { media: String, blank: bool, label: String },
+    /// `type/subtype; name=value` with a parameter that is not a charset: nothing is declared
+    OtherParam { media: String, param: String },
 }
 
 impl Ct {
@@ -288,6 +290,7 @@ impl Ct {
             Ct::Charset { media, blank, label } => {
                 Some(format!("{media};{}charset={label}", if *blank { " " } else { "" }))
             }
+            Ct::OtherParam { media, param } => Some(format!("{media}; {param}")),
         }
     }
     /// The oracle's reading: the charset the header declares, when it declares a known one.
@@ -822,6 +825,11 @@ fn part_a(ctx: &Ctx, probe: &[u8]) -> (Acc, Value) {
                     label: l.to_string(),
                 });
             }
+        }
+    }
+    for m in &medias {
+        for p in ["format=flowed", "boundary=x", "q=0.5", "x-charset=utf-16"] {
+            cts.push(Ct::OtherParam { media: m.to_string(), param: p.to_string() });
         }
     }
     let n_fallback_forms = cts.len();
